@@ -11,7 +11,7 @@ TRUSTED_BASE = [
 
 PROPS = {
     "_suite_timeout": {"quick": 1500, "thorough": 7200},
-    "C01": {"suites": ["ns", "fat", "volume"],
+    "C01": {"suites": ["ns", "fat", "volume", "fsmodel"],
             "rule": "ns: random namespace programs (makedir/makedirs/create/touch/writebytes/appendbytes/remove/removedir/removetree/copy/move + reads) over "
                     "mixed name pools x geometries (FAT12/16/32, sector sizes, 1-3 FATs, offsets) x lazy/eager x both formatters, each call compared with the "
                     "reference filesystem; distinct = (configuration, length, set of op kinds). fat: fill-to-full / delete / refill / shrink-grow programs."},
@@ -19,10 +19,10 @@ PROPS = {
             "rule": "io: call sequences open(mode)/seek/read/readinto/write/truncate/tell/close generated against a shadow byte-buffer reference so that "
                     "offsets hit 0, +-1 of cluster multiples, EOF; all modes; 1-3 files, up to 3 handles; cluster sizes 512 B..64 KiB; free clusters pre-filled "
                     "with garbage; every other file re-read after each write/truncate/close; cursor fields vs Model.FatIO.seekCursor"},
-    "C03": {"suites": ["ns", "fat", "names"],
+    "C03": {"suites": ["ns", "fat", "names", "fsmodel"],
             "rule": "after every completed mutating call (and after close) a copy of the device is mounted by a fresh instance (lazy and eager) and walked; "
                     "compared with the live walk (names, kinds, sizes, contents, times)"},
-    "C04": {"suites": ["ns", "fat", "volume"],
+    "C04": {"suites": ["ns", "fat", "volume", "fsmodel"],
             "rule": "closed images of every history judged by the independent checker (chains in range/acyclic/terminated/disjoint/length=size, leaks, FAT copies, "
                     "reserved entries); volume: allocator/follower/release vs Model.Alloc on random and structured tables"},
     "C05": {"suites": ["ns", "fat", "names"],
@@ -36,7 +36,7 @@ PROPS = {
     "C08": {"suites": ["fat", "ns", "volume"],
             "rule": "every device access of every history checked against the volume bounds (guard bands, device length); volume: every distinct access "
                     "classified into the model's admissible access kinds"},
-    "C09": {"suites": ["fail", "fat", "volume"],
+    "C09": {"suites": ["fail", "fat", "volume", "fsmodel"],
             "rule": "fail: for each of 11 target operations x free-cluster budgets 0..k (volume filled so that the k-th allocation of the operation fails) "
                     "and root directories filled to capacity minus 0..k slots: the operation, then follow-ups (listing, reads, removals to make room, retry); "
                     "limit programs (256-unit names, timestamps outside 1980..2107, wrong resource types)"},
